@@ -267,9 +267,6 @@ var boundedSpecs = map[string][]BoundedSpec{
 	"C19": {{Name: "isBlackURL/lemma/all-encodings", File: "c19_encodings_test.go.txt", Test: "TestZZBoundedEncodings",
 		What:  "every encoding (literal either case, &#D; &#D &#0..0D; &#xH; &#XH) of up to <bound> simultaneously encoded bytes of each scheme, x leading junk x interleaved NUL/LF, is judged dangerous by the real isBlackURL and IsXSS(<a href=..>)",
 		Quick: 1, Thorough: 2}},
-	"C18": {{Name: "parseMoney/ensures/dollartag", File: "c18_dollartag_test.go.txt", Test: "TestZZBoundedDollarTag",
-		What:  "$tag$ literal ends at the first repetition of $tag$: exhaustive over tags of 1..2 (3) letters from {t,a} and bodies up to the bound over {$,t,a,x,'}",
-		Quick: 5, Thorough: 7}},
 }
 
 type boundedResult struct {
